@@ -36,6 +36,9 @@ class ForwardQueue:
             raise AssertionError('unknown queue event %r' % kind)
 
 
+PARAMS = ['test_id', 'test_status', 'test_tags', 'runnable', 'file_name', 'file_bytes', 'eof', 'mime_type', 'route_code', 'timestamp']
+
+
 class C11(Prop):
     id = 'C11'
     budgets = {'quick': 3000, 'thorough': 40000}
@@ -48,7 +51,7 @@ class C11(Prop):
             'distinct = distinct input S-expression')
     assumptions = ['datetime.now(utc) is an oracle value: canonicalised to `now` after checking it is tz-aware UTC and inside the run window',
                    'Python set/frozenset object identity and mutation are modelled by a heap of tag lists; the queue handed to StreamToQueue dispatches each event to the inner result synchronously',
-                   'status() is called with keyword arguments (as CopyStreamResult forwards them)']
+                   'status() is called with the first k parameters positional (k varies with the input) and the rest by keyword, except that the field a `*args, **kwargs` decorator owns is always passed by keyword (StreamTagger: test_tags, TimestampingStreamResult: timestamp - passing those positionally through them raises TypeError in the unchanged code: outside the generated domain)']
 
     manifest = {
         'text': 'Theorems for every decorator tree (any depth and fan-out of CopyStreamResult / StreamTagger / TimestampingStreamResult / StreamToQueue over '
@@ -57,7 +60,7 @@ class C11(Prop):
                 'filled iff missing, route code prefixed - every other field unchanged, independent of siblings; StreamFailFast fires exactly for fail and uxsuccess; '
                 'no object of the caller is written (the heap only grows) and what a sink holds at the end is what it received. The hand-written model is tied to the '
                 'code by a differential check with receipt-time and end-of-run snapshots and object identities.',
-        'note': 'trusted: Lean kernel, the model TTV/Model/StreamDeco.lean (heap of tag sets), the harness; datetime.now modelled as the token `now`; keyword-argument calls only',
+        'note': 'trusted: Lean kernel, the model TTV/Model/StreamDeco.lean (heap of tag sets), the harness; datetime.now modelled as the token `now`; a decorator's own field is always passed by keyword',
         'technique': 'Lean 4 structural induction over decorator trees (mutual recursion) with a heap-monotonicity invariant; executable path specification shared with a differential correspondence check',
     }
 
@@ -111,7 +114,16 @@ class C11(Prop):
                     obj = None if e[2] is None else objects[e[2][1]]
                     kw['test_tags'] = obj
                     before = None if obj is None else ['some', S.un_tags(obj)]
-                    root.status(**kw)
+                    # the calling convention varies with the input: the first k parameters positionally, in the order of
+                    # StreamResult.status (a tree with a StreamTagger forwards *args next to its own test_tags keyword, so at
+                    # most the two leading parameters can be positional there)
+                    k = (n * 7 + len(calls) * 3 + len(str(e))) % 11
+                    if 'tagger' in str(tree):
+                        k = min(k, 2)
+                    if 'stamp' in str(tree):
+                        k = min(k, 9)      # likewise TimestampingStreamResult only looks at the `timestamp` keyword
+                    pos = [kw.pop(name) for name in PARAMS[:k]]
+                    root.status(*pos, **kw)
                     caller.append([before, None if obj is None else ['some', S.un_tags(obj)]])
             out = []
             for log in leaves:
